@@ -4,6 +4,11 @@ import json, os
 HERE = os.path.dirname(os.path.dirname(os.path.abspath(__file__)))
 
 CHECKS = {
+ 'C20': dict(
+   category='model_checking',
+   text="Dimension.tla/DimMachine.tla/DimFn.tla model dimensions as exponent vectors at two levels: what physics dictates (rule classes for the 85 dispatched functions) and a code-shaped level (powers dicts with zero-stripping, class-name construction/parsing character by character, the Dimension cache, the 18 dispatchers); UnitGrammar/UnitMachine model unit definition, parsing and formatting. TLC checks homomorphism, abelian-group laws, Sound/NoSpuriousReject, CacheSound, UniqueParse, RoundTrip; every emitted transition/program/string outcome is replayed on real SI.Quantity objects (S->C) and the live dispatch table (85 entries) and unit table (701 keys) are checked by TLC (T).",
+   note="Exact rational scalars and 2-vectors; inexact roots and 2-D array results are checked for dimension only; == / != between different dimensions are modelled as the code behaves (return False/True) and not judged.",
+   technique="TLA+ two-level dimension/unit models checked by TLC; spec->code replay on SI.Quantity; live dispatch and unit tables validated by TLC"),
  'C17': dict(
    category='model_checking',
    text="HashSem.tla transcribes nutils_hash branch by branch as an injective term encoding Enc(v) with SHA-1 as a constructor and defines behavioural identity Canon(v); Hash.tla builds values (18 base, 14 wrapping actions) and TLC judges Injective/Stable of every value against the whole universe (the name-only type tag of the code is predicted to collide, the qualified tag holds); Intern.tla models the weak intern tables with Construct/Load/Drop/Dump and checks UniqueLive/ExactArgs/SameWhileAlive/TableSound. Every value is materialised in Python and hashed in seven settings (other PYTHONHASHSEEDs, pickle round trips, rebuilds), the real hash-equality table and exported structures of 145 real nutils objects are decided by TLC (HashTable.tla), and intern histories are replayed with identity/argument/table-size comparison after every step.",
